@@ -2,11 +2,16 @@
 import reghist as rh
 
 PARTIAL = [
-    "reading PIL text (read_pil) is not part of the histories",
-    "CompOK is proved under the guard that no request carries length 0: with length 0 the guards "
-    "`elif length and ...` of DomainS.identifiers are skipped (C04_CompOK_refuted_for_zero_length, replayed on the implementation)",
+    'reading PIL text (read_pil) is not part of the histories',
+    'CompOK is proved under two guards that the faithful model shows to be necessary: no explicit length 0 and class defaults different from 0 (op_guard, consts_nonzero), and the pair is {x, x*} with x itself unstarred',
+    'invert_never_refused_full (Proofs/RegExamples.v): in a Good state ~d is never refused; proved: whatever ~d and ~~d return is right (C04_invert_spec, C04_invert_involutive)',
+    'no_fuel_exhaustion_full: the fuel (8) of the DomainS recursion suffices for names with at most 5 trailing stars; OutOfFuel is a distinguished error outcome for which every theorem holds, and a correspondence failure',
+    'len() of a length above sys.maxsize (OverflowError) is not modelled',
 ]
-REFUTED = ["C04_CompOK_refuted_for_zero_length: DomainS('a*', 5); DomainS('a', 0) leaves a and a* live with lengths 0 and 5"]
+REFUTED = [
+    "C04_CompOK_refuted_for_zero_length: DomainS('a*', 5); DomainS('a', 0) leaves a and a* live with lengths 0 and 5 (replayed on the implementation: both live, ~a raises SingletonError)",
+    "C04_CompOK_refuted_for_double_star: DomainS('a**', 7); DomainS('a*', 5) leaves a** and its complement a* live with lengths 7 and 5 (replayed on the implementation; the other creation order is refused)",
+]
 
 
 def batches(ctx):
@@ -14,12 +19,16 @@ def batches(ctx):
     out = []
     # (i) small scope: every history of the given depth over {a, a*} x lengths x {construct, name-only, ~, drop}
     a1 = rh.dom_alphabet(rh.D, names=("a", "a*"), lengths=(None, 5, 9), dtypes=(None,), invs=((0, 1), (1, 0)))
-    out.append(("DomainS/exhaustive-depth-%d" % (4 if quick else 5), rh.all_histories(a1, 4 if quick else 5), 3, [rh.D]))
+    out.append(("DomainS/exhaustive-depth-4", rh.all_histories(a1, 4), 3, [rh.D]))
+    if not quick:
+        a0 = rh.dom_alphabet(rh.D, names=("a", "a*"), lengths=(None, 5, 9), dtypes=(None,), slots=(0,), invs=((0, 1), (1, 0)))
+        a0 += [rh.drop(1), rh.dom(1, rh.D, "a*", None), rh.dom(1, rh.D, "a", 9), rh.dom(1, rh.D, "a*", 5)]
+        out.append(("DomainS/exhaustive-depth-5", rh.all_histories(a0, 5), 3, [rh.D]))
     # dtype rules on a class with other constants (DomB: cutoff 4, short 3, long 9, prefix q)
     a2 = rh.dom_alphabet(rh.DB, names=("a", "a*", None), lengths=(None, 3, 9), dtypes=(None, "short", "long"),
                          slots=(0,), invs=((0, 1), (1, 0)))
     a2 += [rh.drop(1), rh.dom(1, rh.DB, "a*", None, None, None), rh.dom(1, rh.DB, "a", 3, None, None)]
-    out.append(("DomB/dtype-exhaustive-depth-3", rh.all_histories(a2, 3 if quick else 4), 3, [rh.DB, rh.D]))
+    out.append(("DomB/dtype-exhaustive-depth-%d" % (3 if quick else 4), rh.all_histories(a2, 3 if quick else 4), 3, [rh.DB, rh.D]))
     # (ii) long random histories over all domain classes, larger alphabets, zero / negative lengths, odd names
     n, ln = (400, 40) if quick else (6000, 100)
     hs = [domain_history(rng, ln) for _ in range(n)]
@@ -47,16 +56,36 @@ def domain_history(rng, length):
     return ops
 
 
-RULE = ("every history of depth 4 (quick) / 5 (thorough) over construct{a,a*}x{no length,5,9}, name-only, ~, drop on two "
-        "slots of DomainS; every history of depth 3/4 over names x lengths x dtypes on DomB (changed class constants); "
+RULE = ("every history of depth 4 over construct{a,a*}x{no length,5,9}, name-only, ~, drop on two slots of DomainS "
+        "(thorough: also depth 5 over a 13-letter alphabet); every history of depth 3/4 over names x lengths x dtypes on DomB (changed class constants); "
         "random histories of length 40/100 over six domain classes (subclasses, failing constructors), larger name "
         "alphabet, zero/negative lengths, empty/odd names and dtypes; compared after every step: outcome, existing, "
         "slot identities, both registries (private dicts and show_singletons), attributes, ID counters, weakref liveness; "
         "distinct = distinct final observable states on which model and implementation agree")
 
 
+WITNESSES = {
+    "C04_CompOK_refuted_for_zero_length": [rh.dom(0, rh.D, "a*", 5), rh.dom(1, rh.D, "a", 0)],
+    "C04_CompOK_refuted_for_double_star": [rh.dom(0, rh.D, "a**", 7), rh.dom(1, rh.D, "a*", 5)],
+}
+
+
 def run(ctx):
+    # the witnesses of the two refuted statements, replayed on the implementation (information only:
+    # the statements are outside the guards of the proved theorem; the integrator decides whether they
+    # are recorded as findings)
+    rep = {}
+    for name, ops in WITNESSES.items():
+        out = rh.run_oracle("c04.py", {"histories": [{"ops": ops, "nslots": 2}], "deep": True})
+        rep[name] = {"history": ops, "snippet": rh.snippet(ops, 2),
+                     "implementation": [f["what"] for f in out["failures"]] or "not reproduced"}
+    # recorded findings (known_findings.json): reported as KNOWN-FINDING while they still reproduce
+    for name, r in rep.items():
+        if r["implementation"] != "not reproduced":
+            ctx.violation("counterexample", {"key": {"witness": name}, "input": r["history"],
+                                             "what": "; ".join(r["implementation"])[:500], "snippet": r["snippet"]})
     rh.run_check(ctx, "C04", batches, RULE, partial=PARTIAL, refuted=REFUTED)
+    ctx.cov["refuted_witness_replay"] = rep
 
 
 def replay(data):
